@@ -202,6 +202,7 @@ def run(prop, tier, seed, replay=None):
                                % (cname, i)})
 
     # 5. extra exploration (CLI etc.)
+    ctx["results"], ctx["descs"] = results, descs
     if hok:
         try:
             for v in prop.extra(ctx):
